@@ -115,7 +115,7 @@ pub fn gen(focus: &str, seed: u64, count: u64) -> Vec<String> {
                 "C07" => *g.pick(&["lnthr", "lnthr", "weird", "smooth"]),
                 "C18" => *g.pick(&["lnthr", "lnthr", "smooth", "forced"]),
                 "C19" => *g.pick(&["forced", "forced", "smooth", "weird"]),
-                "C20" => *g.pick(&["plateau", "smooth", "forced", "plateau"]),
+                "C20" => *g.pick(&["plateau", "smooth", "forced", "plateau", "quant", "quant"]),
                 _ => *g.pick(&["smooth", "forced", "lnthr", "plateau", "weird"]),
             };
             format!(
@@ -130,6 +130,15 @@ pub fn gen(focus: &str, seed: u64, count: u64) -> Vec<String> {
             )
         };
         let mut st = settings(&mut g, focus);
+        if head.contains("script=quant") {
+            // many short loops, thresholds ON the grid of the score steps (and zero)
+            let (steps, inner) = *g.pick(&[(3000u64, 7u64), (400, 20), (60, 5), (600, 15), (90, 3), (2000, 100), (64, 1)]);
+            let mut s = Spec::parse(&format!("opt {}", st));
+            s.kv.insert("steps".into(), steps.to_string());
+            s.kv.insert("inner".into(), inner.to_string());
+            s.kv.insert("conv".into(), fmt_f(*g.pick(&[0.25, 0.25, 0.5, 0.5, 0., 0.75, 0.26])));
+            st = s.kv.iter().map(|(k, v)| format!("{}={}", k, v)).collect::<Vec<_>>().join(" ");
+        }
         if real {
             // real states are slow to score: keep runs short
             let mut s = Spec::parse(&format!("opt {}", st));
